@@ -116,6 +116,11 @@ def visible_def_nodes(par, use, name):
                 for st in p["s"][:idx]:
                     if st.get("k") == "local" and st["pat"].get("k") != "p_ident" and any(x.get("k") == "p_ident" and x["n"] == name for x in __import__("synq").walk(st["pat"])):
                         return None
+        if p.get("k") == "for" and p.get("body") is cur and any(x.get("k") == "p_ident" and x["n"] == name for x in __import__("synq").walk(p.get("pat", {}))):
+            return None     # the loop variable shadows outer definitions
+        if p.get("k") in ("if", "while") and isinstance(p.get("c"), dict) and p["c"].get("k") == "let" and (p.get("t") is cur or p.get("body") is cur) \
+                and any(x.get("k") == "p_ident" and x["n"] == name for x in __import__("synq").walk(p["c"]["pat"])):
+            return None     # bound by the `if let` / `while let` pattern
         if p.get("k") in ("closure", "item_fn"):
             # parameters of the closure shadow outer names
             for prm in p.get("params", []):
